@@ -85,11 +85,23 @@ fn strong_case(cfg: &Config, idx: u64, r: &mut Rng, st: &mut Stats) {
         let rt = if r.chance(1, 2) { mutate_program(r, &l) } else { gen_program(r, &o) };
         (l, rt)
     };
-    if r.chance(1, 6) {
+    // (the special shapes come often among the first cases: a change that makes the builds slow
+    // lets only a few dozen cases through before the time budget)
+    if (idx < 200 && r.chance(1, 2)) || r.chance(1, 6) {
         // shapes on which an HT-level rewrite and its classical counterpart differ
-        let (p, n) = [("p", 0usize), ("q", 1), ("s", 0)][r.upto(3)];
-        let atom = if n == 0 { p.to_string() } else { format!("{p}(X)") };
-        l.push_str(&format!("\n{atom} :- {} {atom}.", ["not", "not not"][r.upto(2)]));
+        if r.chance(1, 2) {
+            let (p, n) = [("p", 0usize), ("q", 1), ("s", 0)][r.upto(3)];
+            let atom = if n == 0 { p.to_string() } else { format!("{p}(X)") };
+            l.push_str(&format!("\n{atom} :- {} {atom}.", ["not", "not not"][r.upto(2)]));
+        } else {
+            // an arithmetic term over a variable in a body atom: the antecedent of the rule's
+            // formula stays existential after the other simplifications
+            let k = r.range(0, 2);
+            l.push_str(&format!("\ns :- q(X+{k})."));
+            if r.chance(1, 2) {
+                l.push_str(&format!("\ns :- q({}).", k + r.range(0, 2)));
+            }
+        }
     }
     let (Ok(lp), Ok(rp)) = (parse_program(&l), parse_program(&rt)) else { return };
     let mu = r.chance(1, 2);
